@@ -6,8 +6,11 @@ import threading
 import time
 from collections import Counter
 
-BLOCKING = {"c_get", "c_post", "c_alive", "c_done", "w_loop", "w_fetch", "w_put", "w_check", "w_send",
+BLOCKING = {"c_get", "c_post", "c_alive", "c_empty", "c_islive", "c_done", "w_loop", "w_fetch", "w_put", "w_check", "w_send",
             "s_get", "s_alive", "s_put"}
+
+
+_ORIG_IS_ALIVE = threading.Thread.is_alive
 
 
 class Controller:
@@ -21,6 +24,8 @@ class Controller:
         self.visits: Counter = Counter()
         self.consumer_thread = consumer_thread or threading.current_thread()
         self.log: list[tuple[str, str]] = []
+        self.arm_islive = False  # also stop the consumer between its emptiness test and its liveness test
+        self._islive_pending = False
 
     @staticmethod
     def tid_of(thread: threading.Thread, consumer) -> str:
@@ -46,6 +51,8 @@ class Controller:
         t = self.tid_of(threading.current_thread(), self.consumer_thread)
         if t.startswith("?"):
             return
+        if name in ("c_alive", "c_empty"):
+            self._islive_pending = True
         with self.cv:
             self.at[t] = name
             self.arrivals[t] += 1
@@ -87,7 +94,7 @@ class Controller:
                 if self.arrivals[t] != gen and t in self.at:
                     return self.at[t]
                 th = self._thread(t)
-                if t not in self.released and t not in self.at and (th is None or not th.is_alive()):
+                if t not in self.released and t not in self.at and (th is None or not _ORIG_IS_ALIVE(th)):
                     return "dead"
                 if time.time() > end:
                     return "timeout"
@@ -99,8 +106,44 @@ class Controller:
             self.cv.notify_all()
 
 
+class _StdlibPoints:
+    """Harness-side instrumentation (no change to /repo): the consumer's calls to Queue.empty() and to Thread.is_alive()
+    on worker threads become points, so a schedule can interleave between the two tests of the consumer's exit condition."""
+
+    def __init__(self, ctl: Controller):
+        import queue
+
+        self.ctl = ctl
+        self.queue = queue
+        self.orig_empty = queue.Queue.empty
+        self.orig_alive = threading.Thread.is_alive
+
+    def __enter__(self):
+        ctl, orig_empty, orig_alive = self.ctl, self.orig_empty, self.orig_alive
+
+        def empty(q):
+            if threading.current_thread() is ctl.consumer_thread and not ctl.free:
+                ctl.point("c_empty", {})
+            return orig_empty(q)
+
+        def is_alive(th):
+            if (ctl.arm_islive and ctl._islive_pending and not ctl.free and threading.current_thread() is ctl.consumer_thread
+                    and th.name.startswith("schemathesis_")):
+                ctl._islive_pending = False
+                ctl.point("c_islive", {})
+            return orig_alive(th)
+
+        self.queue.Queue.empty = empty
+        threading.Thread.is_alive = is_alive
+        return self
+
+    def __exit__(self, *a):
+        self.queue.Queue.empty = self.orig_empty
+        threading.Thread.is_alive = self.orig_alive
+
+
 def run_forced(raw, responder, schedule, *, workers, phase="fuzzing", max_examples=2, max_failures=None,
-               continue_on_failure=False, fault=None, seed=1, stop_cb=None, unique_inputs=False, checks=None):
+               continue_on_failure=False, fault=None, seed=1, stop_cb=None, unique_inputs=False, checks=None, arm_islive=False):
     """Runs the real engine with one enabled unit phase under the forced schedule.
     Returns dict(prefix=events seen when the schedule ended, events=all events, requests_at_end=..., arrivals=[...])."""
     from schemathesis.core import _verif
@@ -111,6 +154,7 @@ def run_forced(raw, responder, schedule, *, workers, phase="fuzzing", max_exampl
     assert _verif.ENABLED, "SCHEMATHESIS_VERIF=1 must be set before schemathesis is imported"
     main = threading.current_thread()
     ctl = Controller(fault=fault, consumer_thread=main)
+    ctl.arm_islive = arm_islive
     _verif.set_controller(ctl)
     rec = Recorder(responder)
     result: dict = {"arrivals": []}
@@ -146,9 +190,10 @@ def run_forced(raw, responder, schedule, *, workers, phase="fuzzing", max_exampl
     th = threading.Thread(target=scheduler, daemon=True)
     th.start()
     try:
-        all_events, reqs = run_engine(raw, phases=[phase], workers=workers, max_examples=max_examples, seed=seed,
-                                      max_failures=max_failures, continue_on_failure=continue_on_failure,
-                                      on_event=on_event, rec=rec, unique_inputs=unique_inputs, checks=checks)
+        with _StdlibPoints(ctl):
+            all_events, reqs = run_engine(raw, phases=[phase], workers=workers, max_examples=max_examples, seed=seed,
+                                          max_failures=max_failures, continue_on_failure=continue_on_failure,
+                                          on_event=on_event, rec=rec, unique_inputs=unique_inputs, checks=checks)
     finally:
         ctl.release_all()
         th.join(timeout=30)
